@@ -576,19 +576,52 @@ func cryptoMixedSeq(c *core.Ctx, k *core.Case) {
 	}
 	r := prng.New(uint64(k.I[3]))
 	var trace []string
+	// the caller's receive area: now and then an EMPTY message is ciphered in place at its
+	// start (rx[:0], the whole area as spare capacity); the area stays the caller's
+	rx := make([]byte, 96)
+	for i := range rx {
+		rx[i] = 0xa5
+	}
+	rxIntact := func() bool {
+		for _, x := range rx {
+			if x != 0xa5 {
+				return false
+			}
+		}
+		return true
+	}
 	for step := 0; step < int(k.I[4]); step++ {
 		alg := int64(1 + r.Intn(3))
 		n := r.Intn(41)
 		if r.Chance(1, 4) {
 			n = r.Range(40, 300)
 		}
+		// the same COUNT and DIRECTION, or their "twin": COUNT with bit 31 flipped and the other
+		// DIRECTION - the two tuples agree in the words of the 128-EIA1/EEA1 IV that are built
+		// as COUNT xor DIRECTION<<31
+		count, dir := k.I[0], k.I[2]
+		if r.Chance(1, 3) {
+			count, dir = count^0x80000000, dir^1
+		}
+		if r.Chance(1, 6) {
+			_ = security.NASEncrypt(uint8(alg), key16(k.B[0]), uint32(count), uint8(k.I[1]), uint8(dir), rx[:0])
+			trace = append(trace, fmt.Sprintf("NEA%d/empty-in-place", alg))
+		}
 		before := c.Report().Counters["violating_cases"]
 		if r.Bool() {
 			trace = append(trace, fmt.Sprintf("NEA%d/%d", alg, n))
-			c06Cipher(c, &core.Case{Oracle: "cipher", Target: fmt.Sprintf("security.NEA%d", alg), I: []int64{alg, k.I[0], k.I[1], k.I[2], int64(8 * n), apiNAS}, B: [][]byte{k.B[0], r.Bytes(n)}})
+			c06Cipher(c, &core.Case{Oracle: "cipher", Target: fmt.Sprintf("security.NEA%d", alg), I: []int64{alg, count, k.I[1], dir, int64(8 * n), apiNAS}, B: [][]byte{k.B[0], r.Bytes(n)}})
+			if r.Chance(1, 3) {
+				// ... and through the per-algorithm function, whose result the caller keeps
+				c06Cipher(c, &core.Case{Oracle: "cipher", Target: fmt.Sprintf("security.NEA%d", alg), I: []int64{alg, count, k.I[1], dir, int64(8 * n), apiAlg}, B: [][]byte{k.B[0], r.Bytes(n)}})
+			}
 		} else {
 			trace = append(trace, fmt.Sprintf("NIA%d/%d", alg, n))
-			c07Mac(c, &core.Case{Oracle: "mac", Target: fmt.Sprintf("security.NIA%d", alg), I: []int64{alg, k.I[0], k.I[1], k.I[2], int64(8 * n), apiNAS, 0}, B: [][]byte{k.B[0], r.Bytes(n)}})
+			c07Mac(c, &core.Case{Oracle: "mac", Target: fmt.Sprintf("security.NIA%d", alg), I: []int64{alg, count, k.I[1], dir, int64(8 * n), apiNAS, 0}, B: [][]byte{k.B[0], r.Bytes(n)}})
+		}
+		if !rxIntact() {
+			c.Fail(k, "empty-message-area-written-later", fmt.Sprintf("an empty message had been ciphered in place at the start of a 96-octet receive area; after later calls (%v) the area reads %s", trace[max(0, len(trace)-4):], hx(rx)))
+			return
 		}
 		if c.Report().Counters["violating_cases"] > before {
 			if len(trace) > 6 {
